@@ -381,6 +381,10 @@ to_internal_location(struct hwloc_internal_location_s *iloc,
     }
     iloc->location.object.gp_index = location->location.object->gp_index;
     iloc->location.object.type = location->location.object->type;
+    /* the caller gave a valid object, cache it: if this location gets stored as a new initiator
+     * of an existing target, the memattr cache stays valid and nothing else would initialize it
+     */
+    iloc->location.object.obj = location->location.object;
     return 0;
   default:
     errno = EINVAL;
